@@ -276,7 +276,7 @@ def rule_term_kernels(ctx: Ctx, which: Optional[List[str]] = None, rule: str = "
                 tl = Rec("PolyhedralTermList", {"terms": ListV([t])})
                 try:
                     r = ta.method(tl, "evaluate", [DictV({x: num(0)})])
-                    out[label] = "kept" if (isinstance(r, Rec) and r.f["terms"].items) else "dropped"
+                    out[label] = "kept" if (isinstance(r, Rec) and "terms" in r.f and r.f["terms"].items) else "dropped"
                 except Raised as e:
                     out[label] = "raise " + e.cls
             want = {"negative": "raise ValueError", "zero": "dropped", "positive": "dropped"}
